@@ -22,6 +22,7 @@
 package encoding
 
 import (
+	"strconv"
 	"strings"
 
 	"github.com/danos/mgmterror"
@@ -129,6 +130,29 @@ func isIdentityrefSimpleFormValid(path []string, sn schema.Node, val string) (st
 
 }
 
+// listEntryIdent joins the values of all keys of a list entry (a key that
+// is not given counts as absent).
+func listEntryIdent(path []string, node unserialized, le schema.ListEntry) string {
+	kids, err := node.unserializedChildren(path, le)
+	if err != nil {
+		return ""
+	}
+	ident := ""
+	for _, key := range le.Keys() {
+		val := "-"
+		for _, ch := range kids {
+			if ch.name() != key {
+				continue
+			}
+			if vals, err := ch.values(); err == nil && len(vals) == 1 {
+				val = strconv.Quote(vals[0])
+			}
+		}
+		ident += val + " "
+	}
+	return ident
+}
+
 func convertToDataNode(path []string, name string, node unserialized, sn schema.Node) (datanode.DataNode, error) {
 
 	children := []datanode.DataNode{}
@@ -196,10 +220,15 @@ func convertToDataNode(path []string, name string, node unserialized, sn schema.
 			// A node occurs once below its parent: a member given both as
 			// "x" and as "mod:x", or two entries of a list with the same
 			// key, would otherwise both end up in the tree.
-			if seen[childName] {
+			ident := childName
+			if le, ok := csn.(schema.ListEntry); ok && len(le.Keys()) > 1 {
+				// the entries of a list are told apart by all of their keys
+				ident = listEntryIdent(path, ch, le)
+			}
+			if seen[ident] {
 				return nil, schema.NewNodeExistsError(append(path, childName))
 			}
-			seen[childName] = true
+			seen[ident] = true
 
 			// Construct child path correctly for list case
 			childPath := path
